@@ -263,7 +263,9 @@ def gen_tree_case(rng, prof: dict | None = None) -> dict:
                 while int(lv["pop"] * tr) < 2:
                     lv["pop"] += 1
     options = {}
-    if rng.random() < p.get("seeded_p", 0.7):
+    # CMA-ES (clock) and the qmc samplers (OS entropy) are not replayable without a seed: always seed those
+    needs_seed = any(e in CMA_ENGINES or e in ("lhs", "sobol") for e in engines)
+    if rng.random() < p.get("seeded_p", 0.7) or needs_seed:
         options["random_seed"] = rng.randint(0, 10**6)
     hib = p.get("hibernation")
     if hib is None:
